@@ -97,6 +97,7 @@ Proof. intros [x|x|x] [y|y|y]; cbn; try reflexivity; apply Z.eqb_sym. Qed.
 Lemma dict_allocate : forall R r c q R' o, Dict_ok R -> r_allocate R r c q = (R', o) -> Dict_ok R'.
 Proof.
   intros R r c q R' o [A B] H. unfold r_allocate in H.
+  destruct (q <? 0); [inversion H; subst; split; assumption|].
   destruct (r_available R r <? q); [inversion H; subst; split; assumption|].
   destruct (alloc_loop r q (r_avail R)) as [v recs] eqn:El. inversion H; subst; clear H.
   destruct (alloc_loop_spec _ _ _ _ _ El) as (_ & K & _). split; cbn [r_allocs r_avail].
@@ -111,12 +112,17 @@ Proof.
     + eapply IH; [|exact H]. eapply dict_allocate; eauto.
     + inversion H; subst. eapply dict_allocate; eauto.
 Qed.
-Lemma dict_rollback : forall R c n, Inv_ledger R -> Dict_ok R -> Dict_ok (r_rollback R c n).
+Lemma dict_rollback : forall R c n had, (had = false -> n = 0%nat) -> Inv_ledger R -> Dict_ok R -> Dict_ok (r_rollback R c n had).
 Proof.
-  intros R c n HI [A B]. pose proof (inv_keys _ (inv_rollback R c n HI)) as K.
+  intros R c n had Hh HI [A B]. pose proof (inv_keys _ (inv_rollback R c n had Hh HI)) as K.
   split; [|rewrite K; unfold r_rollback; destruct (al_find c (r_allocs R)); cbn [r_total]; rewrite <- (inv_keys _ HI); exact B].
   unfold r_rollback. destruct (al_find c (r_allocs R)); [|exact A]. cbn [r_allocs].
-  destruct (n =? 0)%nat; [apply nodup_al_remove|]; apply nodup_al_set; exact A.
+  destruct had; [|apply nodup_al_remove]; apply nodup_al_set; exact A.
+Qed.
+Lemma nodup_al_register : forall c a, NoDup (map fst a) -> NoDup (map fst (al_register c a)).
+Proof.
+  intros c a H. unfold al_register. destruct (al_find c a) eqn:E; [exact H|]. rewrite map_app. cbn [map fst].
+  apply NoDup_app_snoc; [exact H|]. apply al_find_none_notin. exact E.
 Qed.
 Lemma dict_allocate_multiple : forall R req c R' o,
   Inv_ledger R -> Dict_ok R -> r_allocate_multiple R req c = (R', o) -> Dict_ok R'.
@@ -124,8 +130,8 @@ Proof.
   intros R req c R' o HI HD H. unfold r_allocate_multiple in H.
   destruct (existsb _ req); [inversion H; subst; exact HD|].
   destruct (alloc_seq R req c) as [R1 [u|e]] eqn:Es; inversion H; subst.
-  - eapply dict_alloc_seq; eauto.
-  - apply dict_rollback; [eapply inv_alloc_seq; eauto|eapply dict_alloc_seq; eauto].
+  - destruct (dict_alloc_seq _ _ _ _ _ HD Es) as [A B]. split; cbn [r_allocs r_avail]; [apply nodup_al_register; exact A|exact B].
+  - apply dict_rollback; [apply had_entry_n|eapply inv_alloc_seq; eauto|eapply dict_alloc_seq; eauto].
 Qed.
 Lemma dict_deallocate : forall R c R' o, Inv_ledger R -> Dict_ok R -> r_deallocate R c = (R', o) -> Dict_ok R'.
 Proof.
@@ -192,7 +198,7 @@ Proof.
   - inversion H; subst. exists []. cbn. auto.
   - destruct (r_allocate R r c q) as [R1 [u|e]] eqn:Ea.
     + destruct (IH _ _ _ _ H) as (recs & E1 & E2 & E3).
-      unfold r_allocate in Ea. destruct (r_available R r <? q); [discriminate|].
+      unfold r_allocate in Ea. destruct (q <? 0); [discriminate|]. destruct (r_available R r <? q); [discriminate|].
       destruct (alloc_loop r q (r_avail R)) as [v rs]. inversion Ea; subst; clear Ea. cbn [r_allocs r_total] in *.
       exists (rs ++ recs). split; [|split; assumption]. rewrite E1.
       unfold al_append. destruct rs as [|x rs]; [reflexivity|]. destruct recs as [|y recs].
@@ -203,7 +209,8 @@ Proof.
           - rewrite comp_eqb_refl. reflexivity.
           - destruct (comp_eqb c' c0) eqn:E; cbn [al_set]; rewrite E; [reflexivity|]. rewrite IHa. reflexivity. }
         rewrite Hs. rewrite <- app_assoc. reflexivity.
-    + inversion H; subst. unfold r_allocate in Ea. destruct (r_available R r <? q).
+    + inversion H; subst. unfold r_allocate in Ea. destruct (q <? 0); [inversion Ea; subst; exists []; cbn; eauto|].
+      destruct (r_available R r <? q).
       * inversion Ea; subst. exists []. cbn. eauto.
       * destruct (alloc_loop r q (r_avail R)). discriminate.
 Qed.
@@ -226,31 +233,31 @@ Proof.
   destruct (comp_eqb c' c) eqn:E; [inversion H; reflexivity|]. rewrite IH by exact H. reflexivity.
 Qed.
 
-Theorem allocate_multiple_refusal : forall R req c R' e,
-  Inv_ledger R -> Dict_ok R -> al_find c (r_allocs R) <> Some [] ->
-  r_allocate_multiple R req c = (R', Err e) -> R' = R.
+(* a refused allocate_multiple changes NOTHING; since /repo be1cb9f (had_entry) this needs no side condition
+   on empty entries: allocate_multiple_refusal keeps its older signature for the modules that use it *)
+Theorem allocate_multiple_refusal_any : forall R req c R' e,
+  Inv_ledger R -> Dict_ok R -> r_allocate_multiple R req c = (R', Err e) -> R' = R.
 Proof.
-  intros R req c R' e HI HD Hne H. pose proof (inv_allocate_multiple _ _ _ _ _ HI H) as HI'.
+  intros R req c R' e HI HD H. pose proof (inv_allocate_multiple _ _ _ _ _ HI H) as HI'.
   unfold r_allocate_multiple in H.
   destruct (existsb _ req); [inversion H; reflexivity|].
   destruct (alloc_seq R req c) as [R1 [u|e1]] eqn:Es; inversion H; subst; clear H.
   destruct (alloc_seq_shape _ _ _ _ _ Es) as (recs & Ea & Et & _).
   pose proof (inv_alloc_seq _ _ _ _ _ HI Es) as HI1.
-  (* the allocation dict is restored *)
-  assert (A : r_allocs (r_rollback R1 c (length (al_get c (r_allocs R)))) = r_allocs R).
-  { unfold r_rollback. destruct recs as [|x recs].
+  set (had := match al_find c (r_allocs R) with Some _ => true | None => false end) in *.
+  assert (A : r_allocs (r_rollback R1 c (length (al_get c (r_allocs R))) had) = r_allocs R).
+  { unfold r_rollback, had. destruct recs as [|x recs].
     - cbn [al_append] in Ea. rewrite Ea.
       destruct (al_find c (r_allocs R)) as [l|] eqn:Ef; [|congruence]. cbn [r_allocs].
-      rewrite (al_find_get _ _ _ Ef), firstn_all.
-      destruct l as [|y l]; [congruence|]. cbn [length Nat.eqb]. apply al_set_same. exact Ef.
+      rewrite (al_find_get _ _ _ Ef), firstn_all. apply al_set_same. exact Ef.
     - rewrite Ea. unfold al_append. rewrite al_find_set_same. cbn [r_allocs]. rewrite al_set_set.
       destruct (al_find c (r_allocs R)) as [l|] eqn:Ef.
       + rewrite (al_find_get _ _ _ Ef). rewrite firstn_app, Nat.sub_diag, firstn_all. cbn [firstn]. rewrite app_nil_r.
-        destruct l as [|y l]; [congruence|]. cbn [length Nat.eqb]. apply al_set_same. exact Ef.
-      + unfold al_get. rewrite Ef. cbn [length Nat.eqb firstn app]. apply al_remove_set_absent. exact Ef. }
-  destruct R as [av tot al]. destruct (r_rollback R1 c _) as [av' tot' al'] eqn:Er. cbn [r_allocs] in A. subst al'.
+        apply al_set_same. exact Ef.
+      + unfold al_get. rewrite Ef. cbn [length firstn app]. apply al_remove_set_absent. exact Ef. }
+  destruct R as [av tot al]. destruct (r_rollback R1 c _ had) as [av' tot' al'] eqn:Er. cbn [r_allocs] in A. subst al'.
   assert (T : tot' = tot).
-  { assert (X : r_total (r_rollback R1 c (length (al_get c al))) = r_total R1)
+  { assert (X : r_total (r_rollback R1 c (length (al_get c al)) had) = r_total R1)
       by (unfold r_rollback; destruct (al_find c (r_allocs R1)); reflexivity).
     cbn [r_allocs] in Er. rewrite Er in X. cbn [r_total] in X, Et. congruence. }
   subst tot'. f_equal.
@@ -259,6 +266,10 @@ Proof.
   - rewrite K'. rewrite <- K. exact N.
   - intro k. specialize (C (rkey_eqb k)). specialize (C' (rkey_eqb k)). lia.
 Qed.
+Theorem allocate_multiple_refusal : forall R req c R' e,
+  Inv_ledger R -> Dict_ok R -> al_find c (r_allocs R) <> Some [] ->
+  r_allocate_multiple R req c = (R', Err e) -> R' = R.
+Proof. intros R req c R' e HI HD _. apply allocate_multiple_refusal_any; assumption. Qed.
 
 (* ---------- a successful allocation records exactly the requested quantity ---------- *)
 Lemma alloc_loop_exact : forall r v rem v' recs,
@@ -302,7 +313,7 @@ Proof.
     destruct (r_allocate R r c q) as [R1 [u|e]] eqn:Ea; [|discriminate].
     pose proof (nonneg_allocate _ _ _ _ _ _ Hq1 HN Ea) as HN1.
     destruct (IH _ _ _ HN1 Hq2 H) as (recs & E1 & E2).
-    unfold r_allocate in Ea. destruct (r_available R r <? q) eqn:Ev; [discriminate|].
+    unfold r_allocate in Ea. destruct (q <? 0); [discriminate|]. destruct (r_available R r <? q) eqn:Ev; [discriminate|].
     destruct (alloc_loop r q (r_avail R)) as [v rs] eqn:El. inversion Ea; subst; clear Ea. cbn [r_allocs] in *.
     destruct (alloc_loop_exact _ _ _ _ _ El (nn_avail _ HN)) as [S F]; [unfold r_available in Ev; lia|].
     exists (rs ++ recs). split.
@@ -312,15 +323,29 @@ Proof.
     + intro n. rewrite sumP_app, E2, (sumP_name_of_match n r rs F), S. cbn [sumP]. unfold name_is at 2. cbn [fst].
       destruct (fst r =? n); lia.
 Qed.
+(* a request that is served has no negative quantity (allocate refuses them) *)
+Lemma alloc_seq_ok_nonneg : forall req R c R', alloc_seq R req c = (R', Ok tt) -> nonneg_vec req.
+Proof.
+  induction req as [|[r q] req IH]; intros R c R' H; [constructor|]. cbn [alloc_seq] in H.
+  destruct (r_allocate R r c q) as [R1 [u|e]] eqn:Ea; [|discriminate].
+  constructor; [|eapply IH; eauto]. cbn [snd]. unfold r_allocate in Ea. destruct (q <? 0) eqn:E; [discriminate|lia].
+Qed.
+Lemma allocate_multiple_ok_nonneg : forall R req c R', r_allocate_multiple R req c = (R', Ok tt) -> nonneg_vec req.
+Proof.
+  intros R req c R' H. unfold r_allocate_multiple in H. destruct (existsb _ req); [discriminate|].
+  destruct (alloc_seq R req c) as [R1 [[]|e]] eqn:Es; [|discriminate]. eapply alloc_seq_ok_nonneg; eauto.
+Qed.
+(* NOTE (interface change, /repo be1cb9f): the allocation dict of the result is the appended records
+   followed by the registration of the computation (an empty entry when nothing was recorded) *)
 Lemma allocate_multiple_exact : forall R req c R', Nonneg R -> nonneg_vec req ->
   r_allocate_multiple R req c = (R', Ok tt) ->
-  exists recs, r_allocs R' = al_append c recs (r_allocs R) /\
+  exists recs, r_allocs R' = al_register c (al_append c recs (r_allocs R)) /\
                forall n, sumP (name_is n) recs = sumP (name_is n) req.
 Proof.
   intros R req c R' HN Hq H. unfold r_allocate_multiple in H.
   destruct (existsb _ req); [discriminate|].
   destruct (alloc_seq R req c) as [R1 [[]|e]] eqn:Es; inversion H; subst.
-  eapply alloc_seq_exact; eauto.
+  destruct (alloc_seq_exact _ _ _ _ HN Hq Es) as (recs & E1 & E2). exists recs. cbn [r_allocs]. rewrite E1. auto.
 Qed.
 
 (* deepcopy: the initial state *)
